@@ -131,6 +131,9 @@ _bk_gen, _bk_chk = build.backend_dimension(0.12)
 gen_case = _bk_gen(gen_case)
 check_case = _bk_chk(check_case)
 
+# no clause depends on the coordinate unit: 8 % of the planar cases are expressed in a small unit (everything x 2^-7..2^-17)
+gen_case = mcase.scale_dimension(0.08)(gen_case)
+
 TECHNIQUE = "runtime monitoring: oracle over every state of the reported best path (configured cut-offs; exact-rational / vector nearest-point reference), incl. exact-threshold workload class"
 LEVEL_TEXT = ("{Q} (quick) / {T} (thorough) histories in both metrics; every state on every reported best path is checked against max_dist, "
               "max_dist_init, min_prob_norm, and every emitting state against the exact nearest point, relative position and distance. Thresholds "
